@@ -67,6 +67,12 @@ type caseSpec struct {
 	// served, then silent) are idle; LateGate (-1: none) is opened only after Shutdown was called.
 	Shutdown bool `json:"shutdown,omitempty"`
 	LateGate int  `json:"late_gate"`
+	// TwoBurst (Serve mode, same running Serve loop): after the first workload is over and the counters read zero,
+	// an idle gap of GapDurations x MaxIdleWorkerDuration lets the pool's cleaner retire the workers; then
+	// Burst2 = Concurrency+k connections arrive with handlers held on a gate of their own.
+	TwoBurst     bool `json:"two_burst,omitempty"`
+	GapDurations int  `json:"gap_durations,omitempty"`
+	Burst2       int  `json:"burst2,omitempty"`
 }
 
 const nGates = 3
@@ -128,6 +134,15 @@ func genCase(rnd *rand.Rand) caseSpec {
 			}
 		}
 	}
+	if cs.Mode == "serve" && !cs.Shutdown && rnd.Intn(2) == 0 {
+		cs.TwoBurst = true
+		cs.IdleWorkerMs = 20 + rnd.Intn(31)
+		cs.GapDurations = 4 + rnd.Intn(3)
+		cs.Burst2 = cs.Conc + 1 + rnd.Intn(5)
+		if rnd.Intn(3) != 0 {
+			cs.PerIP = 0 // let Concurrency be the binding limit of the second burst
+		}
+	}
 	return cs
 }
 
@@ -184,6 +199,7 @@ type srvConn struct {
 	serveErr    atomic.Pointer[string]
 	serveDone   atomic.Bool
 	hjDone      atomic.Bool   // its HijackHandler returned
+	launched    atomic.Bool   // its client was started
 	kaReady     chan struct{} // kaidle: closed once the client has read its first response (or the stream ended)
 	sawReject   atomic.Int32  // status of a complete 503/429 the client has parsed (set before it waits for the close)
 }
@@ -230,6 +246,9 @@ type caseMon struct {
 	conns []*srvConn
 	gates [nGates]chan struct{}
 	gOnce [nGates]sync.Once
+	// burstGate holds the handlers of the second burst
+	burstGate chan struct{}
+	bOnce     sync.Once
 
 	hGauge, hMax atomic.Int32 // handlers in progress
 	sGauge, sMax atomic.Int32 // connections between first server Read and server Close (hijacked ones leave when their handler returns)
@@ -327,6 +346,8 @@ func (cm *caseMon) onClose(c *srvConn) {
 	}
 }
 
+func (cm *caseMon) openBurstGate() { cm.bOnce.Do(func() { close(cm.burstGate) }) }
+
 func (cm *caseMon) openGate(g int) { cm.gOnce[g].Do(func() { close(cm.gates[g]) }) }
 
 func (cm *caseMon) handler(ctx *fasthttp.RequestCtx) {
@@ -360,6 +381,8 @@ func (cm *caseMon) handler(ctx *fasthttp.RequestCtx) {
 		for i := 0; i < 3; i++ {
 			runtime.Gosched()
 		}
+	case mode == "gb":
+		<-cm.burstGate
 	case len(mode) == 2 && mode[0] == 'g':
 		<-cm.gates[int(mode[1]-'0')%nGates]
 	case mode == "hj":
@@ -550,6 +573,8 @@ func (cm *caseMon) runClient(sc *srvConn, cc net.Conn, arrived func()) (res clie
 			msgs, eof = readMsgs(cc, sc, &buf, 1<<30)
 		}
 		finish(msgs, eof)
+	case "burst2":
+		converse([]string{reqText(id, 0, "gb", false)})
 	case "probe":
 		cc.Write([]byte(reqText(id, 0, "i", true))) //nolint:errcheck
 		arrived()
@@ -629,6 +654,10 @@ type caseOut struct {
 	shutdownReturned     bool
 	idleAtShutdown       int // kaidle connections that had been served and were still open when Shutdown was called
 	probesOK             int
+	twoBurstDone         bool
+	burst2Held           int // handlers inside the burst gate when it was opened
+	burst2Served         int
+	burst2Rejected503    int
 }
 
 func runCase(idx int, spec caseSpec) *caseOut {
@@ -639,6 +668,7 @@ func runCase(idx int, spec caseSpec) *caseOut {
 	for g := range cm.gates {
 		cm.gates[g] = make(chan struct{})
 	}
+	cm.burstGate = make(chan struct{})
 	s := &fasthttp.Server{
 		Handler:               cm.handler,
 		Concurrency:           spec.Conc,
@@ -652,7 +682,7 @@ func runCase(idx int, spec caseSpec) *caseOut {
 	}
 	cm.srv = s
 	n := len(spec.Clients)
-	total := n + spec.NIPs // one probe connection per IP is used after quiescence
+	total := n + spec.NIPs + spec.Burst2 // one probe connection per IP is used after quiescence; then the second burst
 	newListener := func() *memListener {
 		return &memListener{ch: make(chan net.Conn, total+1), done: make(chan struct{})}
 	}
@@ -670,6 +700,9 @@ func runCase(idx int, spec caseSpec) *caseOut {
 	}
 	for ip := 0; ip < spec.NIPs; ip++ {
 		mk(n+ip, clientPlan{Kind: "probe", IP: ip, NReq: 1, CloseErr: ip%2 == 1})
+	}
+	for j := 0; j < spec.Burst2; j++ {
+		mk(n+spec.NIPs+j, clientPlan{Kind: "burst2", IP: j % spec.NIPs, NReq: 1, CloseErr: j%4 == 3})
 	}
 	out.results = make([]clientResult, total)
 	startServe := func(l *memListener) chan struct{} {
@@ -693,6 +726,7 @@ func runCase(idx int, spec caseSpec) *caseOut {
 	// launch starts the client of connection i (always called from this goroutine, before the matching Wait)
 	launch := func(i int, l *memListener) chan struct{} {
 		sc := cm.conns[i]
+		sc.launched.Store(true)
 		early := !spec.lateDependent(sc.plan)
 		arrivedWG.Add(1)
 		clientsWG.Add(1)
@@ -742,6 +776,7 @@ func runCase(idx int, spec caseSpec) *caseOut {
 		for g := range cm.gates {
 			cm.openGate(g)
 		}
+		cm.openBurstGate()
 		for _, pc := range pcs {
 			pc.Close() // let the abandoned goroutines go
 		}
@@ -858,10 +893,10 @@ func runCase(idx int, spec caseSpec) *caseOut {
 		out.serveReturned = true
 	}
 	// quiescence: every server-side conn closed by the server, hijack handlers returned, ConnState balanced
-	quiet := func(upto int) func() bool {
+	quiet := func(int) func() bool {
 		return func() bool {
-			for _, c := range cm.conns[:upto] {
-				if c.closes.Load() == 0 {
+			for _, c := range cm.conns {
+				if c.launched.Load() && c.closes.Load() == 0 {
 					return false
 				}
 			}
@@ -929,6 +964,65 @@ func runCase(idx int, spec caseSpec) *caseOut {
 		}
 	}
 	checkZero("quiescence")
+
+	if spec.TwoBurst && !out.settleRefuted {
+		// idle gap on the running Serve loop: nothing is served (counters read zero above), the cleaner gets
+		// several MaxIdleWorkerDuration periods to retire the workers of the first burst (longer never hurts)
+		time.Sleep(time.Duration(spec.GapDurations*spec.IdleWorkerMs) * time.Millisecond)
+		first := n + spec.NIPs
+		for j := 0; j < spec.Burst2; j++ {
+			launch(first+j, ln)
+		}
+		if !mon.Watchdog(quiesceCap, arrivedWG.Wait) {
+			stuck("second burst did not finish arriving")
+			return out
+		}
+		if !pollUntil(quiesceCap, func() bool { return ln.accepted.Load() == ln.pushed.Load() && ln.pushed.Load() == int64(n+spec.Burst2) }) {
+			stuck(fmt.Sprintf("second burst: listener backlog not drained: pushed=%d accepted=%d", ln.pushed.Load(), ln.accepted.Load()))
+			return out
+		}
+		// "accepted" only says Accept returned: the last connection may not have reached the pool yet. Wait until
+		// each one is either being read by a worker or was closed by the accept loop, with the gate still shut.
+		if !pollUntil(quiesceCap, func() bool {
+			for j := 0; j < spec.Burst2; j++ {
+				if c := cm.conns[first+j]; !c.readStarted.Load() && c.closes.Load() == 0 {
+					return false
+				}
+			}
+			return true
+		}) {
+			stuck("second burst: some connections were neither taken by a worker nor rejected")
+			return out
+		}
+		pause(spec.GatePause[0])
+		out.burst2Held = int(cm.hGauge.Load())
+		cm.openBurstGate()
+		if !mon.Watchdog(quiesceCap, clientsWG.Wait) {
+			clientsStuck("second-burst clients did not finish")
+			return out
+		}
+		if !pollUntil(quiesceCap, quiet(0)) {
+			stuck("no quiescence after the second burst")
+			return out
+		}
+		// No second-burst connection can end before the burst gate opens, and the gate opens only after each of
+		// them was either taken by a worker (first server Read seen) or closed by the accept loop: every one that
+		// was answered 200 was held by a worker at that moment.
+		for j := 0; j < spec.Burst2; j++ {
+			r := out.results[first+j]
+			switch {
+			case len(r.statuses) > 0 && r.statuses[0] == 200:
+				out.burst2Served++
+			case len(r.statuses) > 0 && r.statuses[0] == 503:
+				out.burst2Rejected503++
+			}
+		}
+		if out.burst2Served > spec.Conc {
+			cm.violate("second-burst-served-exceeds-concurrency", fmt.Sprintf("after an idle gap of %d x MaxIdleWorkerDuration(%dms) on the running Serve loop, %d of %d simultaneously held connections were served (200) and only %d got 503, Concurrency=%d; handlers in the gate when it opened: %d; MaxConnsPerIP=%d", spec.GapDurations, spec.IdleWorkerMs, out.burst2Served, spec.Burst2, out.burst2Rejected503, spec.Conc, out.burst2Held, spec.PerIP))
+		}
+		out.twoBurstDone = true
+		checkZero("after second burst")
+	}
 
 	if spec.Mode == "serve" && !spec.Shutdown {
 		ln.Close()
@@ -1089,7 +1183,7 @@ func bucket(n int) string {
 func TestC12(t *testing.T) {
 	r := mon.Start(t, "C12")
 	defer r.Finish()
-	r.Rule("case = one fasthttp.Server (Concurrency 1-4, MaxConnsPerIP 1-3 or off, ReduceMemoryUsage/KeepHijackedConns varied) used through Serve(in-memory listener) or through ServeConn from one goroutine per connection, hit by 8-64 client goroutines from 2-3 fake IPv4 addresses with seeded behaviours (1-3 sequential requests, gated request, pipelined pair, idle, partial request, hijack held on a gate, garbage, abort; every fifth server-side conn reports an error from Close, and any second Close of a socket reports one, as a real socket does) and seeded gate-opening order (one gate may open before the arrivals, the others only after every connection was accepted); a third of the Serve-mode cases end with Server.Shutdown() while 1..Concurrency keep-alive connections (one request served) are idle, with one gate opened only after Shutdown was called; after quiescence one probe connection per IP must be admitted on a new Serve cycle of the same Server (or through ServeConn); 4 cases run concurrently under one seeded sched.Perturber (wp.*, srv.* hook points). distinct = feature vector (mode, Concurrency, MaxConnsPerIP, client-count bucket, buckets of 503/429/hijack counts, handler peak reached Concurrency, per-IP peak reached the limit); non-trivial = at least one connection was rejected or a limit was reached")
+	r.Rule("case = one fasthttp.Server (Concurrency 1-4, MaxConnsPerIP 1-3 or off, ReduceMemoryUsage/KeepHijackedConns varied) used through Serve(in-memory listener) or through ServeConn from one goroutine per connection, hit by 8-64 client goroutines from 2-3 fake IPv4 addresses with seeded behaviours (1-3 sequential requests, gated request, pipelined pair, idle, partial request, hijack held on a gate, garbage, abort; every fifth server-side conn reports an error from Close, and any second Close of a socket reports one, as a real socket does) and seeded gate-opening order (one gate may open before the arrivals, the others only after every connection was accepted); a third of the Serve-mode cases end with Server.Shutdown() while 1..Concurrency keep-alive connections (one request served) are idle, with one gate opened only after Shutdown was called; half of the other Serve-mode cases are two-burst cases (MaxIdleWorkerDuration 20-50 ms; once the first workload is over and the counters read zero the running Serve loop idles for 4-6 durations so that the cleaner retires the workers, then Concurrency+1..5 connections arrive whose handlers are held on a gate of their own until all of them were accepted); after quiescence one probe connection per IP must be admitted on a new Serve cycle of the same Server (or through ServeConn); 4 cases run concurrently under one seeded sched.Perturber (wp.*, srv.* hook points). distinct = feature vector (mode, Concurrency, MaxConnsPerIP, client-count bucket, buckets of 503/429/hijack counts, handler peak reached Concurrency, per-IP peak reached the limit); non-trivial = at least one connection was rejected or a limit was reached")
 	r.Assume("gauges are lower bounds of what the server holds: a connection counts from the server's first Read on it until the server's Close (both inside the worker / ServeConn hold and inside the per-IP registration); handlers are a subset; hijacked connections leave the Concurrency gauge when their handler returns and the per-IP gauge only when the server closes them")
 	r.Assume("spurious rejections (503/429 although a slot was free, possible because tryAcquireConcurrency and Register over-count transiently) are not judged: the property only bounds from above")
 	r.Assume("one Server is used either through one Serve call or through ServeConn, not both at once and not with two listeners (each Serve call has its own pool of Concurrency workers and does not consult the shared counter): mixed use is excluded as caller-defined")
@@ -1097,7 +1191,7 @@ func TestC12(t *testing.T) {
 	r.Assume("probe connections are sent one at a time and only once VerifPerIPCounts is empty and GetCurrentConcurrency is 0, so a 429 (or, for ServeConn, a 503) cannot be explained by another live connection; a 503 to a Serve-mode probe is not judged (the previous probe's worker may not have re-entered the ready list yet)")
 	r.Assume("idle/partial/abort clients do not read, so a rejection sent to them is not observed (counted as conns_unobserved)")
 
-	n := r.N(600, 20000)
+	n := r.N(450, 12000)
 	const batchSize = 4
 	nb := (n + batchSize - 1) / batchSize
 	hits := map[string]int{}
@@ -1168,7 +1262,7 @@ func TestC12(t *testing.T) {
 					r.Event("serveconn_err_perip_limit", c)
 				}
 			}
-			class := fmt.Sprintf("%s conc=%d perip=%d clients=%s 503=%s 429=%s hj=%s peakConc=%v peakIP=%v rm=%v shutdown=%v/%s late=%v", spec.Mode, spec.Conc, spec.PerIP, bucket(len(spec.Clients)), bucket(n503), bucket(n429), bucket(hj), peakConc, peakIP, spec.ReduceMem, spec.Shutdown, bucket(out.idleAtShutdown), spec.LateGate >= 0)
+			class := fmt.Sprintf("%s conc=%d perip=%d clients=%s 503=%s 429=%s hj=%s peakConc=%v peakIP=%v rm=%v shutdown=%v/%s late=%v twoburst=%v", spec.Mode, spec.Conc, spec.PerIP, bucket(len(spec.Clients)), bucket(n503), bucket(n429), bucket(hj), peakConc, peakIP, spec.ReduceMem, spec.Shutdown, bucket(out.idleAtShutdown), spec.LateGate >= 0, spec.TwoBurst)
 			r.Case(class, n503 > 0 || n429 > 0 || peakConc || peakIP)
 			r.Event("client_conns", len(spec.Clients))
 			r.Event("handler_calls", int(cm.handlerCalls.Load()))
@@ -1199,6 +1293,15 @@ func TestC12(t *testing.T) {
 				r.Event("idle_keepalive_conns_at_shutdown", out.idleAtShutdown)
 				if out.idleAtShutdown > 0 && spec.PerIP > 0 {
 					r.Event("shutdown_cases_with_idle_perip_conns", 1)
+				}
+			}
+			if out.twoBurstDone {
+				r.Event("two_burst_cases", 1)
+				r.Event("second_burst_conns", spec.Burst2)
+				r.Event("second_burst_served_200", out.burst2Served)
+				r.Event("second_burst_rejected_503", out.burst2Rejected503)
+				if out.burst2Served == spec.Conc {
+					r.Event("second_burst_cases_served_eq_concurrency", 1)
 				}
 			}
 			if out.reachedQuiescence {
@@ -1254,7 +1357,7 @@ func TestC12(t *testing.T) {
 	r.Set("sum_case_ms", totalMs)
 	r.Set("peak_handlers_seen", peakH)
 	r.Set("peak_served_conns_seen", peakS)
-	for _, nm := range []string{"wp.getch.unlocked", "wp.serve.beforesend", "wp.release.enter", "wp.worker.exit", "wp.stop.enter", "srv.accepted", "srv.beforeHandler", "srv.afterHandler"} {
+	for _, nm := range []string{"wp.getch.unlocked", "wp.serve.beforesend", "wp.release.enter", "wp.worker.exit", "wp.stop.enter", "wp.clean.unlocked", "srv.accepted", "srv.beforeHandler", "srv.afterHandler"} {
 		r.Event("hook:"+nm, hits[nm])
 		if !r.Replaying() {
 			r.Require("hook:"+nm, 1)
@@ -1275,5 +1378,9 @@ func TestC12(t *testing.T) {
 		r.Require("idle_keepalive_conns_at_shutdown", n/12)
 		r.Require("server_side_close_errors", n)
 		r.Require("probe_conns_admitted", n)
+		r.Require("two_burst_cases", n/12)
+		r.Require("second_burst_rejected_503", n/12)
+		r.Require("second_burst_cases_served_eq_concurrency", n/24)
+		r.Require("hook:wp.clean.unlocked", n/12)
 	}
 }
